@@ -294,9 +294,17 @@ fn directories(ctx: &mut Ctx, i: u64) {
         let le = gen::to_lib_entries(&tiles_only);
         let res = guard(|| -> Result<(), String> {
             let mut so = crate::io::Inst::new(Vec::new());
-            let sl = util::write_directories(&mut so, &le, comp, None).map_err(|e| e.to_string())?;
+            // default strategy, or an explicit initial leaf size (tiny ones force several doubling rounds)
+            let strat = |k: u64| match k % 5 {
+                0 => None,
+                1 => Some(util::WriteDirsOverflowStrategy::OnlyLeafPointers { start_size: Some(1) }),
+                2 => Some(util::WriteDirsOverflowStrategy::OnlyLeafPointers { start_size: Some(2) }),
+                3 => Some(util::WriteDirsOverflowStrategy::OnlyLeafPointers { start_size: Some(33) }),
+                _ => Some(util::WriteDirsOverflowStrategy::OnlyLeafPointers { start_size: None }),
+            };
+            let sl = util::write_directories(&mut so, &le, comp, strat(i / 3)).map_err(|e| e.to_string())?;
             let mut ao = ainst(&[], &mut rng, true);
-            let al = block_on(util::write_directories_async(&mut ao, &le, comp, None)).map_err(|e| e.to_string())?;
+            let al = block_on(util::write_directories_async(&mut ao, &le, comp, strat(i / 3))).map_err(|e| e.to_string())?;
             let (sroot, aroot) = (&so.c.data[..so.c.pos as usize], &ao.c.data[..ao.c.pos as usize]);
             if codec == R::C_NONE && (sroot != aroot || sl != al) {
                 return Err(String::from("root or leaf bytes differ although no codec is involved"));
